@@ -28,6 +28,7 @@ type Hist struct {
 	G   *Gen
 	Cfg *GenCfg
 	Ops HistOpts
+	Pre *Model // the model before the step currently being judged
 }
 
 func tierLen(rc *sim.RunCtx, o HistOpts) int {
@@ -94,6 +95,7 @@ func (h *Hist) Step(step int) (tx *TxSpec, res *TxResult) {
 	rc.Step()
 	rc.Scenario("%d: %s", step, tx.Render())
 	pre := h.M.Clone()
+	h.Pre = pre
 	res = ExecTx(rc, h.W, tx, 5*time.Second)
 	h.W.NoteTimer(30 * time.Second)
 	if res.Err != nil {
@@ -102,6 +104,7 @@ func (h *Hist) Step(step int) (tx *TxSpec, res *TxResult) {
 		rc.Scenario("   -> intent errors: %v", res.IntentErrors)
 	}
 	if res.Accepted() && !tx.DryRun {
+		h.M.PrevWinners = pre.choiceWinners()
 		h.M.Accept(tx)
 		if err := Confirm(rc, h.W, tx.ID); err != nil {
 			rc.Report(sim.Item{Prop: "C06", Clause: "C06.confirm-open-failed", Step: step, Detail: fmt.Sprintf("confirm of just accepted %s failed: %v", tx.ID, normErr(err))})
